@@ -1,9 +1,10 @@
 #!/bin/bash
-# run every registered quick check once on /repo; print one line per check
-cd /verif
+# run the given (default: every registered) quick checks once on /repo; one line per check with the real exit code
+cd "$(dirname "$0")"
+[ $# -eq 0 ] && set -- C01 C02 C03 C04 C05 C06 C07 C08 C09 C10 C11 C12 C13 C14 C15 C16 C17 C18 C19
 for c in "$@"; do
   t0=$(date +%s)
-  out=$(timeout 900 ./check $c --tier quick 2>&1 | grep -v conda)
-  rc=$?
-  echo "$c rc=$rc $(( $(date +%s) - t0 ))s :: $(echo "$out" | grep "^VIOLATION\|^KNOWN\|HARNESS\|^$c " | tr '\n' ' ' | cut -c1-400)"
+  out=$(timeout 900 ./check $c --tier quick 2>&1); rc=$?
+  out=$(echo "$out" | grep -v conda)
+  echo "$c rc=$rc $(( $(date +%s) - t0 ))s :: $(echo "$out" | grep "^VIOLATION\|^KNOWN\|HARNESS\|^note\|^$c " | cut -c1-160 | tr '\n' ' ')"
 done
